@@ -348,9 +348,9 @@ def counts_body(ctx, case):
     ctx.case(case, nontrivial=True, classes=[case["dtype"], "single" if n == 0 else "stack"])
     tol = 1e-12
     t, f = case["t"], case["f"]
-    kf_cog = n > 0 and t != 0 and ctx.is_open(KF_COG)
-    if not kf_cog:
-        ctx.close(c.centre_of_gravity(typed.copy(), threshold=t), c.centre_of_gravity(ref.copy(), threshold=t), tol, "centre_of_gravity(%s counts) == centre_of_gravity(the same counts as float64)" % case["dtype"], scale=max(ny, nx), name="cog storage type")
+    # (typed stack against the float64 stack of the same rank: the open finding about stacks vs frames is not involved)
+    for tt in ((t,) if n == 0 else (t, 1)):                  # a stack also with the integer threshold 1 = brightest pixel(s) only
+        ctx.close(c.centre_of_gravity(typed.copy(), threshold=tt), c.centre_of_gravity(ref.copy(), threshold=tt), tol, "centre_of_gravity(%s counts) == centre_of_gravity(the same counts as float64)" % case["dtype"], scale=max(ny, nx), name="cog storage type")
     if frac_ok(f, ny * nx):
         want = c.brightest_pixel(ref.copy(), f)
         if np.all(np.isfinite(want)):
